@@ -190,6 +190,7 @@ func streamNoPanic(o *Out, r *rand.Rand, n int, thorough bool) {
 			items = append(items, item{"splice", a[:r.Intn(len(a)+1)] + c[r.Intn(len(c)+1):]})
 		}
 	}
+	noPanicSweep(o)
 	reported := map[string]int{}
 	var mu sync.Mutex
 	var wg sync.WaitGroup
@@ -260,4 +261,58 @@ func firstWords(s string, n int) string {
 		f = f[:n]
 	}
 	return strings.Join(f, "_")
+}
+
+// operand pool of the systematic sweep: every value class, with the boundary values guards are written for
+var sweepOperands = []string{
+	"0", "1", "-1", "7", "64", "-64", "0.5", "-0.25", "1e-9", "2.5", "1e300", "0.0", "9223372036854775807", "-9223372036854775808",
+	"\"\"", "\"0.5\"", "\"abc\"", "\"7\"", "u", "nil", "true", "false", "[]", "[1]", "[1, 2, 3]", "c", "{}", "x", "v", "nilptr", "nilslice", "nilmap",
+	"f", "ch", "m", "_t1", "ts", "tm", "pt", "st", "make([]int64, 0)", "c[5:]", "fz()", "swap(1, 2)",
+}
+
+// noPanicSweep runs, in this process under recover, every binary operator / compound assignment / index / slice / make /
+// multiple-assignment form over all pairs of the operand pool: whatever the operands, the call must return.
+func noPanicSweep(o *Out) {
+	bin := []string{"+", "-", "*", "/", "%", "<<", ">>", "&", "|", "^", "==", "!=", "<", "<=", ">", ">=", "&&", "||", "??", "in"}
+	asg := []string{"+=", "-=", "*=", "/=", "%=", "&=", "|=", "<<=", ">>="}
+	var srcs []string
+	for _, l := range sweepOperands {
+		for _, r := range sweepOperands {
+			for _, op := range bin {
+				srcs = append(srcs, l+" "+op+" "+r)
+			}
+			for _, op := range asg {
+				srcs = append(srcs, "zz = "+l+"\nzz "+op+" "+r)
+			}
+			srcs = append(srcs, "("+l+")["+r+"]", "("+l+")["+r+":]", "("+l+")[:"+r+"]", "zz = "+l+"\nzz["+r+"] = "+r, "("+l+")["+r+":"+r+"]", "true ? "+l+" : "+r,
+				"switch "+l+" { case "+r+": 1 }", "for q in "+l+" { "+r+" }", "make([]int64, "+l+", "+r+")", "g("+l+", "+r+")", "sum("+l+", "+r+")")
+		}
+		srcs = append(srcs, "p1, p2 = "+l, "var p1, p2 = "+l, "p1, p2, p3 = "+l, "p1, p2 = "+l+", "+l, "-("+l+")", "!("+l+")", "^("+l+")", "zz = "+l+"\nzz++", "zz = "+l+"\nzz--",
+			"len("+l+")", "make([]int64, "+l+")", "make(chan int64, "+l+")", "toString("+l+")", "toInt("+l+")", "toFloat("+l+")", "toBool("+l+")", "keys("+l+")", "range("+l+")",
+			"for q in "+l+" { break }", "delete("+l+", 1)", "throw "+l, "return "+l, "sum("+l+"...)", "g(1, "+l+"...)", "func(p...) { return p }("+l+"...)", "*("+l+")", "zz = "+l+"\n&zz")
+	}
+	e := richEnv()
+	hasBig := func(src string) bool {
+		return strings.Contains(src, "9223372036854775807") || strings.Contains(src, "9223372036854775808") || strings.Contains(src, "1e300")
+	}
+	for _, src := range srcs {
+		if strings.Contains(src, "ch") && (strings.HasPrefix(src, "for q in ch") || strings.Contains(src, "<-")) {
+			continue // receiving from the empty channel blocks
+		}
+		if hasBig(src) && (strings.Contains(src, "range(") || strings.Contains(src, "make(") || strings.Contains(src, "*")) {
+			continue // allocations of that size are resource exhaustion, outside the guarantee (the child-process forms cover the guards)
+		}
+		var p interface{}
+		func() {
+			defer func() { p = recover() }()
+			ctx, cancel := context.WithTimeout(context.Background(), 2*time.Second)
+			defer cancel()
+			_, _ = vm.ExecuteContext(ctx, e.DeepCopy(), nil, src)
+		}()
+		o.Sum.Evaluations++
+		o.Sum.Hist["src:sweep"]++
+		if p != nil {
+			o.Fail(Failure{Oracle: "host-survives", Key: "host-panic:" + firstWords(fmt.Sprint(p), 6), Input: src, Detail: fmt.Sprint(p)})
+		}
+	}
 }
